@@ -842,3 +842,66 @@ def ob_modelcache(method, tier="quick", faults=False):
         return method + (":answered-despite-fault" if c.ghost.get("stack_raised") else "")
 
     return explore(body, {"budget_s": 900, "max_depth": 4000, "max_failures": 3, "timeout_ms": 20000, "max_paths": 2000000})
+
+
+def ob_modelcache_copy(tier="quick"):
+    """ModelCacheMixin._copy / _blank_copy: the copy holds the same cached models and exhausted marks as the original in containers OF ITS OWN
+    (a model the copy finds later must not appear in the original's cache, nor the other way round); a blank copy holds none."""
+    global UM, WV
+    UM, WV = 3, 2
+    FAULTS["on"] = False
+    ns = load_modelcache()
+    H = type("HM", (ns["ModelCacheMixin"], MSpec), {})
+    proxies.set_iw(12)
+    import weakref
+
+    def body(c):
+        CH.n = 0
+        s, e = _mc_state(c, H, "_add")
+        for f in FLAGS:                      # real containers (the state generator uses guarded dicts for the marks it does not need)
+            setattr(s, f, weakref.WeakValueDictionary(dict(getattr(s, f))) if False else dict(dict.items(getattr(s, f))))
+        blank = c.choose([True, True], "blank") == 1
+        o = object.__new__(H)
+        o.U = s.U
+        label = "ModelCacheMixin." + ("_blank_copy" if blank else "_copy")
+        try:
+            (s._blank_copy if blank else s._copy)(o)
+        except (PathEnd, Undecided):
+            raise
+        except Exception as ex:  # noqa
+            c.fail(label + "/raises", f"{type(ex).__name__}: {ex}", kind="raises")
+            return "raised"
+        c.n_vcs += 1
+        for attr in ["_models"] + FLAGS:
+            mine, theirs = getattr(s, attr), getattr(o, attr, None)
+            if theirs is None:
+                c.fail(label + "/attribute", f"the copy has no {attr}")
+                continue
+            if theirs is mine:
+                c.fail(label + "/own-containers", f"the copy shares {attr} with the original: what one of them caches later shows up in the other")
+                continue
+            same = (set(theirs) == set(mine)) if attr == "_models" else (set(theirs.keys()) == set(mine.keys()))
+            if blank and len(theirs):
+                c.fail(label + "/blank-is-empty", f"a blank copy starts with a non-empty {attr}")
+            if not blank and not same:
+                c.fail(label + "/same-content", f"{attr} of the copy differs from the original's")
+        if not blank and bool(o._exhausted) != bool(s._exhausted):
+            c.fail(label + "/same-content", "_exhausted differs")
+        return "blank" if blank else "copy"
+
+    return explore(body, {"budget_s": 120, "max_depth": 2000, "replay": replay_modelcache_copy})
+
+
+def replay_modelcache_copy(failure=None):
+    """native: a branch gets a constraint while nothing is cached, then the original finds a model the branch's constraint excludes"""
+    import claripy
+    x = claripy.BVS("kf_mc_x", 8, explicit_name=True)
+    s = claripy.Solver()
+    s.add(claripy.ULT(x, 200))
+    b = s.branch()
+    b.add(claripy.ULT(x, 10))
+    s.add(claripy.UGT(x, 100))
+    s.eval(x, 1)
+    got = b.eval(x, 3)
+    bad = [v for v in got if v >= 10]
+    return {"reproduced": bool(bad), "text": f"s.add(x <u 200); b = s.branch(); b.add(x <u 10); s.add(x >u 100); s.eval(x, 1); b.eval(x, 3) = {got}" + (f": {bad} violate the branch's constraints" if bad else "")}
